@@ -46,6 +46,8 @@ var c06Prelude = []string{
 	`func muta(x, i, v) { if len(x) > 0 { x[i % len(x)] = v }; x }`,
 	`func mutm(x, k, v) { x[k] = v; x }`,
 	`func keep(x) { x }`,
+	`func mutsha(a, i, v) { if len(a) > 0 { a[i % len(a)] = v }; len(a) }`, // parameter named like the global a
+	`func mutshm(m, k, v) { m[k] = v; len(m) }`,                           // parameter named like the global m
 	`func slow(v) { t := 0; for i = 40 { t = t + i }; v }`,
 }
 
@@ -68,7 +70,7 @@ func (c06) Generate(r *core.Rng, run int, tier string) *core.History {
 		mn, mn2 := core.Pick(r, mapNames), core.Pick(r, mapNames)
 		k := "k" + strconv.Itoa(r.Intn(10))
 		idx := int64(r.Intn(24) - 4)
-		switch c := r.Intn(30); {
+		switch c := r.Intn(33); {
 		case c < 2:
 			ev("bind-arr", an, "", int64(core.Pick(r, c06Sizes)), 0)
 		case c < 4:
@@ -105,6 +107,17 @@ func (c06) Generate(r *core.Rng, run int, tier string) *core.History {
 			ev("rest", an, an2, 0, 0)
 		case c < 29:
 			ev("loop-mutate", an, "", 0, 0)
+		case c < 32:
+			switch r.Intn(4) {
+			case 0:
+				ev("empty-plus-map", mn, mn2, 0, 0)
+			case 1:
+				ev("empty-plus-arr", an, an2, 0, 0)
+			case 2:
+				ev("call-shadow-arr", an, "", idx, 0)
+			default:
+				ev("call-shadow-map", mn, k, 0, 0)
+			}
 		default:
 			switch r.Intn(4) {
 			case 0:
@@ -124,11 +137,11 @@ func (c06) Generate(r *core.Rng, run int, tier string) *core.History {
 // c06Family groups event kinds by the mutation path they exercise (used in signatures).
 func c06Family(ev string) string {
 	switch ev {
-	case "idx-assign", "slow-assign", "call-mut-arr", "loop-mutate":
+	case "idx-assign", "slow-assign", "call-mut-arr", "loop-mutate", "call-shadow-arr":
 		return "index-write"
 	case "append-self", "append-other", "pure-plus":
 		return "plus-append"
-	case "map-set", "call-mut-map":
+	case "map-set", "call-mut-map", "call-shadow-map":
 		return "map-write"
 	case "map-del":
 		return "map-delete"
@@ -375,6 +388,31 @@ func (c06) Execute(h *core.History) *core.Outcome {
 			// iterating over a value: the loop sees the elements the array had when the loop started
 			v.arr[len(v.arr)-1] = v.arr[len(v.arr)-1].clone()
 			src = fmt.Sprintf("for x9 = %s { %s[-1] = x9 }", e.Name, e.Name)
+		case "empty-plus-map", "empty-plus-arr":
+			sv := m[e.Key]
+			if sv == nil || e.Key == e.Name {
+				continue
+			}
+			touched = e.Key
+			m[e.Name] = sv.clone()
+			if e.Ev == "empty-plus-map" {
+				src = fmt.Sprintf("%s = {} + %s", e.Name, e.Key)
+			} else {
+				src = fmt.Sprintf("%s = [] + %s", e.Name, e.Key)
+			}
+		case "call-shadow-arr":
+			// the callee's parameter has the name of the global a: it must still be a private copy
+			if m[e.Name] == nil {
+				continue
+			}
+			touched = e.Name
+			src = fmt.Sprintf("mutsha(%s, %d, %d)", e.Name, e.N, w.fresh())
+		case "call-shadow-map":
+			if m[e.Name] == nil {
+				continue
+			}
+			touched = e.Name
+			src = fmt.Sprintf("mutshm(%s, %q, %d)", e.Name, e.Key, w.fresh())
 		case "bad-idx":
 			v := m[e.Name]
 			if v == nil {
